@@ -178,14 +178,26 @@ void gen_samples(const psig_t *ps, uint64_t vseed, int64_t sid, uint32_t n, uint
         uint64_t v = 0;
         int pat = ps->pattern;
         int cls = 3;
-        if (pat == PAT_BLOCKCONST) cls = (int) (hb % 4);
+        if (pat == PAT_BLOCKCONST) cls = (int) (hb % 5);
+        /* class 4: constant block except for one to three samples next to its edges (second sample, within the first
+         * byte, last sample) - the inputs on which a constant-block detector that skips a byte goes wrong */
+        int dev = 0;
+        if (pat == PAT_BLOCKCONST && cls == 4) {
+            int64_t pos = rel - bidx * blk;
+            int which = (int) ((hb >> 16) % 4);
+            int64_t p1 = which == 0 ? 1 : which == 1 ? 1 + (int64_t) ((hb >> 24) % 6) : which == 2 ? blk - 1 : blk / 2;
+            dev = pos == p1 || (which == 1 && pos == 7 && ((hb >> 40) & 1));
+            cls = 2;
+        }
         if (pat == PAT_BLOCKCONST && cls != 3) {
             if (t->kind == 2) {
                 double c = cls == 0 ? 0.0 : (cls == 1 ? -1.0 : (double) ((int) (hb >> 8) % 200 - 100));
+                if (dev) c += 1.0;
                 if (bits == 32) { float f = (float) c; uint32_t u; memcpy(&u, &f, 4); v = u; } else { memcpy(&v, &c, 8); }
             } else {
                 v = cls == 0 ? 0 : (cls == 1 ? mask : ((hb >> 8) & mask));
                 if (cls == 2 && bits > 1 && (v == 0 || v == mask)) v = 5 & mask;
+                if (dev) v = (v ^ 1) & mask;
             }
         } else if (pat == PAT_RAMP) {
             if (t->kind == 2) {
@@ -443,7 +455,8 @@ int32_t exec_op_sync(struct jls_wr_s *wr, const prog_t *p, op_t *o) {
         case OP_ANNO: {
             uint8_t *b = gen_payload(o->stype, o->dsize, o->dseed);
             v_api("jls_wr_annotation");
-            rc = jls_wr_annotation(wr, o->id, o->ts, o->y, o->atype, o->group, o->stype, b, o->stype == JLS_STORAGE_TYPE_BINARY ? o->dsize : 0);
+            /* expect_reject 3 = the caller passes no payload although a size is given */
+            rc = jls_wr_annotation(wr, o->id, o->ts, o->y, o->atype, o->group, o->stype, o->expect_reject == 3 ? NULL : b, o->stype == JLS_STORAGE_TYPE_BINARY ? o->dsize : 0);
             free(b);
             break;
         }
@@ -451,7 +464,7 @@ int32_t exec_op_sync(struct jls_wr_s *wr, const prog_t *p, op_t *o) {
         case OP_USER: {
             uint8_t *b = gen_payload(o->stype, o->dsize, o->dseed);
             v_api("jls_wr_user_data");
-            rc = jls_wr_user_data(wr, o->meta, o->stype, b, o->stype == JLS_STORAGE_TYPE_BINARY ? o->dsize : 0);
+            rc = jls_wr_user_data(wr, o->meta, o->stype, o->expect_reject == 3 ? NULL : b, o->stype == JLS_STORAGE_TYPE_BINARY ? o->dsize : 0);
             free(b);
             break;
         }
